@@ -108,3 +108,13 @@ Proof.
       destruct c; [contradiction|]. cbn [length]. lia. }
     rewrite E, app_length in Hl. lia.
 Qed.
+
+(* the decoder behind a wsStream sees the same packets however the packets are spread
+   over WebSocket messages and whatever buffer sizes bufio reads with *)
+Theorem ws_decode detect decode lim sizes ms e cs x e' :
+  ws_read_all sizes (ws_init ms e) = (cs, Some x) ->
+  aview (dec_all detect decode lim cs e') = aview (dec_all detect decode lim [ws_bytes ms] e').
+Proof.
+  intros H. destruct (ws_stitch _ _ _ _ _ H) as (_ & _ & F & _). destruct (F x eq_refl) as [E _].
+  apply chunking_irrelevant_two. cbn [concat]. rewrite app_nil_r. exact E.
+Qed.
